@@ -95,12 +95,12 @@ def _interp_body(ctx, kind, pattern, gaps_c, width, t0, ada, step, out, inp):
             continue
         r = ctx.dt(f"r{ri}")
         if prev_r is not None:
-            ctx.assume(r >= prev_r)
-        prev_r = r
+            ctx.assume(r >= prev_r)  # not before the last SERVED request (a refused request does not count)
         try:
             d = inp.pull_data(r)
             got = list(np.asarray(d.magnitude, dtype=object).reshape(-1))
             res = "ok"
+            prev_r = r
         except FinamTimeError:
             res = "time-error"
         except FinamNoDataError:
@@ -213,7 +213,7 @@ EXPLANATION = (
     "propagated by the real arithmetic, also through zero weights like 0*nan) and require the delivered set to equal "
     "the set the definition uses."
 )
-ASSUMPTIONS = ["request times are non-decreasing", "float interpolation arithmetic is evaluated over the reals"]
+ASSUMPTIONS = ["request times are not before the last served request (a refused request does not count)", "float interpolation arithmetic is evaluated over the reals"]
 
 
 def families(tier):
